@@ -292,6 +292,9 @@ func (rn *runner) one(c Case, d *lib.Drv) {
 	if c.Mode != "rm" {
 		res.Hit(fmt.Sprintf("closers:%d", len(c.Closers)))
 		res.Hit("grace:" + c.Grace)
+		if c.RealClock {
+			res.Hit("real-clock:" + c.Grace)
+		}
 		for _, cs := range c.Closers {
 			res.Hit("closer-type:" + cs.Type)
 			res.Hit("closer-ret:" + cs.Ret)
@@ -502,6 +505,24 @@ func main() {
 	}
 	for i := 0; i < nRandom; i++ {
 		add(genRandom(r.Fork()))
+	}
+	// real-clock family: the same scenarios on clock.RealClock{} with a 40 ms grace period
+	nReal := 60
+	if f.Tier == "thorough" {
+		nReal = 400
+	}
+	rr := lib.NewRand(f.Seed*77 + 5)
+	for i := 0; i < nReal; {
+		c := genRandom(rr.Fork())
+		if c.Mode != "rcm" || c.CloseBefore > 0 || len(c.Closers) == 0 {
+			continue
+		}
+		c.RealClock = true
+		c.Grace = []string{"none", "generous", "exceeded"}[i%3]
+		c.TickAt = rr.Intn(len(c.Closers))
+		c.LateClosers = 0
+		add(c)
+		i++
 	}
 
 	workers := runtime.GOMAXPROCS(0)
